@@ -156,6 +156,17 @@ class Interp(object):
                 self.block(st.body, env)
             else:
                 self.block(st.orelse, env)
+        elif isinstance(st, ast.For) and isinstance(st.iter, (ast.Tuple, ast.List)) and isinstance(st.target, ast.Name) and not st.orelse \
+                and not any(isinstance(e, ast.Starred) for e in st.iter.elts):
+            # a loop over a literal sequence is its unrolling: the body once per element, in order
+            for e in st.iter.elts:
+                self.assign(st.target, self.eval(e, env), env)
+                try:
+                    self.block(st.body, env)
+                except _Continue:
+                    continue
+                except _Break:
+                    break
         elif isinstance(st, ast.For):
             it = self.eval(st.iter, env)
             if isinstance(it, TriVal):
